@@ -581,6 +581,7 @@ def run_check(prop, tier, seed, replay=None):
         'known_findings_seen': sorted(known_printed),
         'corpus_cases': ncorpus, 'histogram': dict(sorted(hist.items())),
         'exhaustive_sweeps': ctx['exhaustive'],
+        'ast_facts_unlocated': (json.load(open(COQ + '/gen/unlocated.json')) if os.path.exists(COQ + '/gen/unlocated.json') else []),
         'notes': notes,
     }
     if ctx['exhaustive']:
